@@ -1,6 +1,9 @@
-"""C10 bounded stand-in: parso's token stream equals the running CPython's tokenize on programs CPython compiles.
-Only the interpreter running the harness is a reference (3.12 in /venv); see the manifest note."""
+"""C10 bounded stand-in: parso's token stream for version V equals the tokenize module of CPython V on programs CPython V
+compiles, and up to the rejected token on programs its parser rejects with a plain 'invalid syntax'.  References: the
+interpreter running the harness (3.12 in /venv) in process, the other versions through harness/ref_tokens.py under the
+interpreters of ~/.pyenv/versions (PV_CPYTHONS); a version without an interpreter is counted, not compared."""
 import io
+import os
 import sys
 import tokenize as ref
 import token as reftok
@@ -43,23 +46,95 @@ def _inner(toks, cooked):
     return out
 
 
-def reference(code):
+def _raw_inprocess(code):
+    """-> (compiles, err, raw tokens or None) from the interpreter running the harness"""
+    err = None
+    compiles = False
+    try:
+        with warnings.catch_warnings():
+            warnings.simplefilter('ignore')
+            compile(code, '<c10>', 'exec')
+        compiles = True
+    except SyntaxError as e:
+        err = [type(e).__name__, e.msg, e.lineno, e.offset]
+    except (ValueError, RecursionError, MemoryError, OverflowError) as e:
+        err = [type(e).__name__, str(e), None, None]
+    try:
+        toks = [[reftok.tok_name[t.type], t.string, t.start[0], t.start[1]]
+                for t in ref.generate_tokens(io.StringIO(code).readline)]
+    except (ref.TokenError, SyntaxError, ValueError, RecursionError, MemoryError, OverflowError):
+        toks = None
+    return compiles, err, toks
+
+
+_SERVERS = {}
+_CPY_ROOT = os.environ.get('PV_CPYTHONS', os.path.expanduser('~/.pyenv/versions'))
+
+
+def _server(version):
+    """A reference tokenizer process under CPython <version> (harness/ref_tokens.py), or None when that interpreter is
+    not installed."""
+    if version in _SERVERS:
+        return _SERVERS[version]
+    import glob
+    import subprocess
+    srv = None
+    cands = sorted(glob.glob(os.path.join(_CPY_ROOT, version + '.*', 'bin', 'python')))
+    if cands:
+        try:
+            srv = subprocess.Popen([cands[-1], '-S', '-E', os.path.join(os.path.dirname(os.path.abspath(__file__)), 'ref_tokens.py')],
+                                   stdin=subprocess.PIPE, stdout=subprocess.PIPE, universal_newlines=True, bufsize=1)
+        except OSError:
+            srv = None
+    _SERVERS[version] = srv
+    return srv
+
+
+def raw_reference(code, version):
+    """-> (compiles, err, raw tokens) from CPython <version>, or None when no such interpreter is available"""
+    if version == PYV:
+        return _raw_inprocess(code)
+    srv = _server(version)
+    if srv is None:
+        return None
+    import json
+    try:
+        srv.stdin.write(json.dumps({'code': code}) + '\n')
+        srv.stdin.flush()
+        line = srv.stdout.readline()
+        d = json.loads(line)
+    except Exception:  # noqa   the server died (e.g. interpreter crash on a pathological input): restart next time
+        _SERVERS.pop(version, None)
+        return None
+    return d['compiles'], d['err'], d['toks']
+
+
+def _is_fstring_literal(string):
+    k = 0
+    while k < len(string) and string[k] not in '\'"':
+        k += 1
+    return 'f' in string[:k].lower()
+
+
+def reference(raw, inner=True):
+    """Normal form of a raw CPython token list [[name, string, line, column], ...]."""
     out = []
-    lines = code.splitlines(True)
-    toks = list(ref.generate_tokens(io.StringIO(code).readline))
+    toks = raw
     i = 0
     n = len(toks)
     while i < n:
-        t = toks[i]
-        name = reftok.tok_name[t.type]
+        name, string, sl, sc = toks[i]
+        start = (sl, sc)
         if name in ('COMMENT', 'NL'):
             i += 1
             continue
+        if name in ('ASYNC', 'AWAIT'):      # 3.6: context-dependent token types of the same text
+            name = 'NAME'
         if name == 'FSTRING_START':
             depth = 0
             j = i
             while j < n:
-                nm = reftok.tok_name[toks[j].type]
+                nm = toks[j][0]
                 if nm == 'FSTRING_START':
                     depth += 1
                 elif nm == 'FSTRING_END':
@@ -67,40 +142,44 @@ def reference(code):
                     if depth == 0:
                         break
                 j += 1
-            out.append(('STRING', None, t.start))
-            if j < n and toks[j].start[0] != t.start[0] and not t.string.endswith(('\'\'\'', '"""')):
+            out.append(('STRING', None, start))
+            if j < n and toks[j][2] != sl and not string.endswith(('\'\'\'', '"""')):
                 FLAGS.add('pep701-multiline-single-quoted-fstring')
-            q = t.string[-1:]
-            if any(reftok.tok_name[x.type] in ('FSTRING_START', 'STRING') and x.string.lstrip('rRbBuUfF')[:1] == q
-                   for x in toks[i + 1:j]):
+            q = string[-1:]
+            if any(x[0] in ('FSTRING_START', 'STRING') and x[1].lstrip('rRbBuUfF')[:1] == q for x in toks[i + 1:j]):
                 FLAGS.add('pep701-quote-reuse')
-            if any(reftok.tok_name[x.type] == 'COMMENT' for x in toks[i + 1:j]):
+            if any(x[0] == 'COMMENT' for x in toks[i + 1:j]):
                 FLAGS.add('pep701-comment-in-replacement-field')
             # the inside of the f-string: literal text (adjacent pieces merged; CPython reports '{{' as '{') and the tokens
             # of the replacement fields
-            out.extend(_inner([(reftok.tok_name[x.type], x.string, x.start) for x in toks[i:j + 1]], cooked=True))
+            if inner:
+                out.extend(_inner([(x[0], x[1], (x[2], x[3])) for x in toks[i:j + 1]], cooked=True))
             i = j + 1
             continue
-        if name == 'NEWLINE' and t.string == '':
+        if name == 'STRING' and not inner and _is_fstring_literal(string):
+            out.append(('STRING', None, start))      # before 3.12 an f-string is one STRING token: its inside is not compared
+            i += 1
+            continue
+        if name == 'NEWLINE' and string == '':
             i += 1
             continue
         if name in ('INDENT', 'DEDENT'):
             out.append((name, None, None))
         elif name == 'ENDMARKER':
             out.append((name, None, None))
-        elif name in SIGNIFICANT:
-            out.append((name, t.string, t.start))
         else:
-            out.append((name, t.string, t.start))
+            out.append((name, string, start))
         i += 1
     return out
 
 
-def parso_stream(code, version):
+def parso_stream(code, version, inner=True, upto=None):
     from parso.python.tokenize import tokenize
     from parso.utils import parse_version_string
     out = []
     toks = list(tokenize(code, version_info=parse_version_string(version)))
+    if upto is not None:
+        toks = [t for t in toks if t.start_pos <= upto]
     i = 0
     n = len(toks)
     while i < n:
@@ -118,7 +197,8 @@ def parso_stream(code, version):
                         break
                 j += 1
             out.append(('STRING', None, t.start_pos))
-            out.extend(_inner([(x.type.name, x.string, x.start_pos) for x in toks[i:j + 1]], cooked=False))
+            if inner:
+                out.extend(_inner([(x.type.name, x.string, x.start_pos) for x in toks[i:j + 1]], cooked=False))
             i = j + 1
             continue
         if name in ('INDENT', 'DEDENT', 'ENDMARKER'):
@@ -130,32 +210,70 @@ def parso_stream(code, version):
 
 
 def check(code, version, env):
-    if version != PYV:
-        return []
     if '\x00' in code or '\x0c' in code or '\ufeff' in code or '\r' in code.replace('\r\n', ''):
         return []      # form feeds reset CPython's column count; BOM and lone CR are handled by the decoder
-    try:
-        with warnings.catch_warnings():
-            warnings.simplefilter('ignore')
-            compile(code, '<c10>', 'exec')
-        FLAGS.clear()
-        exp = reference(code)
-    except (SyntaxError, ValueError, ref.TokenError, RecursionError, MemoryError, IndentationError):
+    r = raw_reference(code, version)
+    if r is None:
+        STATS['no_reference_interpreter'] = STATS.get('no_reference_interpreter', 0) + 1
         return []
-    STATS['compared_with_cpython'] += 1
+    compiles, err, raw = r
+    if raw is None:
+        return []
+    vt = tuple(int(x) for x in version.split('.'))
+    import re as _re
+    if (3, 9) <= vt < (3, 12) and _re.search(r'\\\r?\n[ \t\x0b]*(?:#[^\r\n]*)?\r?\n', code):
+        # a blank or comment-only line right after a backslash continuation: the tokenize module of 3.9-3.11 reports a NEWLINE token, the C
+        # tokenizer of 3.9 (seen through the parser module) does not -- no reliable reference for these versions
+        STATS['skipped_reference_unreliable'] = STATS.get('skipped_reference_unreliable', 0) + 1
+        return []
+    inner = vt >= (3, 12)
+    upto = None
+    if not compiles:
+        # CPython's tokenizer accepted the program up to the token its parser rejected: a plain 'invalid syntax' is
+        # raised by the parser at the first token it cannot use (offset: start of that token since 3.8, its end before),
+        # every token up to and including that one has been produced by the tokenizer without error
+        if not err or err[0] != 'SyntaxError' or err[1] != 'invalid syntax' or not err[2] or not err[3]:
+            return []
+        upto = (err[2], err[3] - 1)
+        raw = [t for t in raw if (t[2], t[3]) <= upto]
+        if any(t[0] in ('ERRORTOKEN', 'FSTRING_START') or (t[0] == 'STRING' and _is_fstring_literal(t[1])) for t in raw):
+            return []
+        # since 3.12 the tokenize module reports characters that are no token at all ('$', '?', '!') as OP, and '<>' is an
+        # operator for the tokenizer only under the barry_as_FLUFL future import: not "tokenized without error"
+        if any(t[0] == 'OP' and (t[1] not in reftok.EXACT_TOKEN_TYPES or t[1] == '<>') for t in raw):
+            return []
+    elif any(t[0] == 'ERRORTOKEN' for t in raw):
+        return []      # the pure-Python tokenize module (before 3.12) is more lenient than the tokenizer that compiled it
+    FLAGS.clear()
     try:
-        got = parso_stream(code, version)
+        exp = reference(raw, inner=inner)
+    except RecursionError:
+        return []
+    key = 'compared_with_cpython' if compiles else 'compared_up_to_parser_error'
+    STATS[key] = STATS.get(key, 0) + 1
+    STATS['compared:' + version] = STATS.get('compared:' + version, 0) + 1
+    try:
+        got = parso_stream(code, version, inner=inner, upto=upto)
     except Exception as e:  # noqa
         return [Fail('bnd:C10.tokenize.total', crash_signature(e), repr(e), code)]
+    if upto is not None:
+        # layout tokens after the last compared token carry positions of their own in both tokenizers
+        while exp and exp[-1][0] in ('INDENT', 'DEDENT', 'ENDMARKER', 'NEWLINE'):
+            exp.pop()
+        while got and got[-1][0] in ('INDENT', 'DEDENT', 'ENDMARKER', 'NEWLINE'):
+            got.pop()
     if got != exp:
         k = next((i for i in range(min(len(got), len(exp))) if got[i] != exp[i]), min(len(got), len(exp)))
         g = got[k] if k < len(got) else None
         e = exp[k] if k < len(exp) else None
         sig = '%s/%s' % (g[0] if g else '-', e[0] if e else '-')
         import re as _re
-        if _re.search(r'(?:^|\n)[ \t]+\\\r?\n', code) and 'INDENT' in sig or 'DEDENT' in sig and _re.search(r'(?:^|\n)[ \t]+\\\r?\n', code):
+        if ('INDENT' in sig or 'DEDENT' in sig) and _re.search(r'(?:^|\n)[ \t]*\\\r?\n', code):
             FLAGS.add('indent-from-continuation-line')
+        if vt < (3, 9) and e and e[0] == 'NEWLINE' and _re.search(r'\\\r?\n[ \t\x0b]*(?:#[^\r\n]*)?\r?\n', code):
+            FLAGS.add('newline-token-for-blank-line-after-continuation')
         if FLAGS:
             sig = sorted(FLAGS)[0]
-        return [Fail('bnd:C10.same_tokens', sig, 'token %d: parso %r, CPython %s %r' % (k, g, PYV, e), code)]
+        how = '' if compiles else ' (tokens up to the parser error at %r)' % (upto,)
+        return [Fail('bnd:C10.same_tokens', sig, 'token %d: parso %r, CPython %s %r%s' % (k, g, version, e, how), code)]
     return []
